@@ -318,8 +318,48 @@ def zx_format(fmt, a, k):
     return _cat(pieces)
 
 
+def set_order(x):
+    """iteration order of a set under an unknown hash seed: when the explorer opts in (`permute_sets`), every order of a set of up to 4 elements is explored
+    (solver-driven case split); larger sets: every choice of first element, remaining elements forwards or backwards.  Anything else is returned unchanged."""
+    if type(x) not in (set, frozenset) or not active() or not getattr(cur(), 'permute_sets', False):
+        return x
+    base = builtins.list(x)
+    n = len(base)
+    if n < 2:
+        return base
+    ex = cur()
+
+    def choose(k, tag):
+        v = ex.fresh('setorder_%s' % tag, z3.BitVecSort(ex.W))
+        ex.assume(z3.And(v >= 0, v < k))
+        return ex.concretize(v)
+    ex.set_orders = getattr(ex, 'set_orders', 0) + 1
+    if n <= 4:
+        out, rest = [], builtins.list(base)
+        while len(rest) > 1:
+            out.append(rest.pop(choose(len(rest), 'pick')))
+        return out + rest
+    i = choose(n, 'first')
+    rest = base[:i] + base[i + 1:]
+    if choose(2, 'rev'):
+        rest.reverse()
+    return [base[i]] + rest
+
+
+def z_list(x=()):
+    return builtins.list(set_order(x))
+
+
+def z_tuple(x=()):
+    return builtins.tuple(set_order(x))
+
+
+def z_enumerate(x, start=0):
+    return builtins.enumerate(set_order(x), start)
+
+
 def zx_join(sep, it):
-    items = list(it)
+    items = list(set_order(it))
     if isinstance(sep, (bytes, SBytes)):
         els = []
         for i, x in enumerate(items):
@@ -720,12 +760,15 @@ z_bytes = _TypeShim(_z_bytes_fn, builtins.bytes)
 z_bytearray = _TypeShim(_z_bytearray_fn, builtins.bytearray)
 _z_float_fn = z_float
 z_float = _TypeShim(_z_float_fn, builtins.float)
-_UNSHIM = {z_int: int, z_str: str, z_bytes: bytes, z_bytearray: bytearray, z_float: float}
+_z_list_fn, _z_tuple_fn = z_list, z_tuple
+z_list = _TypeShim(_z_list_fn, builtins.list)
+z_tuple = _TypeShim(_z_tuple_fn, builtins.tuple)
+_UNSHIM = {z_int: int, z_str: str, z_bytes: bytes, z_bytearray: bytearray, z_float: float, z_list: list, z_tuple: tuple}
 _TMAP[float] = (SDec,)
 
 BUILTIN_SHIMS = {
     'int': z_int, 'str': z_str, 'repr': z_repr, 'ord': z_ord, 'chr': z_chr, 'bin': z_bin, 'len': z_len,
-    'isinstance': z_isinstance, 'bytearray': z_bytearray, 'bytes': z_bytes, 'print': z_print, 'pow': z_pow, 'float': z_float,
+    'isinstance': z_isinstance, 'bytearray': z_bytearray, 'bytes': z_bytes, 'print': z_print, 'pow': z_pow, 'float': z_float, 'list': z_list, 'tuple': z_tuple, 'enumerate': z_enumerate,
 }
 
 
